@@ -314,6 +314,85 @@ def check_no_truthiness(ctx, fn, param, rule='T19t', why=''):
                loc=fn.loc, nontrivial=n_id > 0)
 
 
+def reaches(fn_node, target, env, folder, relevant):
+    """Is the statement `target` of fn_node reached when the names in `env` have the given values?  A small evaluator over
+    the statements that enclose or precede the target: assignments of foldable expressions extend env, an `if` whose test
+    mentions a *relevant* name (one derived from env) decides the branch, other tests are taken towards the target, loops
+    are entered.  Returns True / False; raises consteval.Unknown when a relevant test cannot be folded."""
+    from sa.consteval import Unknown
+    env = dict(env)
+    rel = set(relevant)
+    given = set(env)               # the names whose values are being tried: never re-bound by the walk
+
+    def contains(st):
+        return any(x is target for x in ast.walk(st))
+
+    def names(e):
+        return {x.id for x in ast.walk(e) if isinstance(x, ast.Name)}
+
+    def assign(st):
+        for t in st.targets if isinstance(st, ast.Assign) else []:
+            if isinstance(t, ast.Name) and t.id in given:
+                continue
+            if isinstance(t, ast.Name):
+                try:
+                    env[t.id] = folder.fold(st.value, env=env)        # a concrete value under this env
+                    rel.add(t.id)
+                    continue
+                except Unknown:
+                    pass
+                except Exception:
+                    pass
+                env.pop(t.id, None)
+                rel.discard(t.id)
+
+    def run_block(stmts):
+        for st in stmts:
+            if st is target:
+                return True
+            if contains(st):
+                if isinstance(st, ast.If):
+                    inside_body = any(contains(x) for x in st.body)
+                    if names(st.test) & rel:
+                        v = bool(folder.fold(st.test, env=env))
+                        if v != inside_body:
+                            return False
+                    return run_block(st.body if inside_body else st.orelse)
+                for field in ('body', 'orelse', 'finalbody'):
+                    blk = getattr(st, field, None)
+                    if isinstance(blk, list) and any(contains(x) for x in blk if isinstance(x, ast.AST)):
+                        return run_block(blk)
+                if isinstance(st, ast.Try):
+                    for h in st.handlers:
+                        if any(contains(x) for x in h.body):
+                            return run_block(h.body)
+                return True
+            if isinstance(st, ast.Assign):
+                assign(st)
+            elif isinstance(st, ast.If) and names(st.test) & rel:
+                try:
+                    v = bool(folder.fold(st.test, env=env))
+                except Unknown:
+                    v = None
+                if v is None:
+                    for x in ast.walk(st):
+                        if isinstance(x, ast.Name) and isinstance(x.ctx, ast.Store):
+                            env.pop(x.id, None)
+                            rel.discard(x.id)
+                else:
+                    r = run_block(st.body if v else st.orelse)
+                    if r is not None:
+                        return r
+            else:
+                for x in ast.walk(st):
+                    if isinstance(x, ast.Name) and isinstance(x.ctx, ast.Store) and x.id in env and x.id not in relevant:
+                        env.pop(x.id, None)
+                        rel.discard(x.id)
+        return None
+    r = run_block(fn_node.body)
+    return bool(r)
+
+
 def check_default_returned(ctx, prog, fn, recv=None, rule='T14.get', param='default'):
     """get(key, default) / setdefault(key, default): on every normal path the function returns either what a lookup in the
     container produced, or the caller's `default` -- never a constant of its own (an implicit None on the miss path answers
